@@ -66,5 +66,9 @@ ModestK == 10
 (* 1e-11 and RK108 at 1e-3, both with an initial dt larger than the span: the accepted first step of half the span     *)
 (* carries an error its asymptotic estimate under-reports); 99% of the cases are below 17.  The seeded changes that    *)
 (* this clause catches (tolerances swapped, error estimate scaled) are off by factors of 10^3 and more.                 *)
-AccuracyK == 64
+(* With the coupled problem "pair" (a component of size 2^-20 under a purely relative tolerance) the same cell - RK108,  *)
+(* rtol 1e-3, initial dt larger than the span, first step = half the span = the radius of analyticity of A/(1+t^2) -    *)
+(* measures 75 (125 after that first step); the constant was recalibrated from 64 to 128 for that family: the property   *)
+(* leaves "modest" open, and a threshold the unmodified library crosses by 17% on one cell decides nothing.             *)
+AccuracyK == 128
 =============================================================================
